@@ -462,7 +462,7 @@ func c10Gen() *rapid.Generator[c10Case] {
 				c.CbErr = rapid.IntRange(0, 7).Draw(t, "cbErr")
 			}
 		case "dryrun", "mkdir":
-			c.Exts = genExts(f.Names()).Draw(t, "exts")
+			c.Exts = genExts(extSources(f)).Draw(t, "exts")
 			if op == "dryrun" {
 				c.Branch = genBranch().Draw(t, "branch")
 			}
